@@ -8,6 +8,8 @@
   of such events, one per datagram in the order the code sends them.
 -/
 import EcModel.Lemmas.WkcLemmas
+import EcModel.Lemmas.WkcEepromLemmas
+import EcModel.Generated.WkcEeprom
 import EcModel.Lemmas.GroupLemmas
 
 namespace Ec.C11
@@ -456,6 +458,50 @@ theorem exempt_sites :
     Gen.Wkc.rawPduSitesChecked = reviewedRawPduChecked := by
   decide
 
+/-- Reviewed call sites of the provider methods above the provider, with the fate of each result.
+    ALL are `.await?`: this is what `readLoop`, `rangeRead`, `categoryLoop`, `writeLoopR` translate
+    (`| (.error e, t) => (.error (.base e), t)` at every provider call). -/
+def reviewedProviderCalls : List (String × String × String × String) := [
+  ("eeprom/mod.rs", "read_byte", "clear_errors", "?"),
+  ("eeprom/mod.rs", "read_byte", "read_chunk", "?"),
+  ("eeprom/mod.rs", "read", "clear_errors", "?"),
+  ("eeprom/mod.rs", "read", "read_chunk", "?"),
+  ("eeprom/mod.rs", "write", "write_word", "?"),
+  ("subdevice/eeprom.rs", "category", "read_chunk", "?")]
+
+/-- Reviewed calls of `EepromRange::{read, read_exact, read_byte, write_all}` by the SubDevice layer.
+    `?` = error ends the caller, `ret` = the result is the caller's result (`eeprom_read_raw`),
+    `other` = the two item iterators, which match on the `read_exact` result: `UnexpectedEof` is the
+    end of the category (`Ok(None)`), `Other(e)` is returned as `Err(e)` — no error is swallowed. -/
+def reviewedRangeCalls : List (String × String × String × String) := [
+  ("subdevice/eeprom.rs", "station_alias", "read_exact", "?"),
+  ("subdevice/eeprom.rs", "set_station_alias", "read_exact", "?"),
+  ("subdevice/eeprom.rs", "set_station_alias", "write_all", "?"),
+  ("subdevice/eeprom.rs", "set_station_alias", "write_all", "?"),
+  ("subdevice/eeprom.rs", "size", "read_exact", "?"),
+  ("subdevice/eeprom.rs", "mailbox_config", "read_exact", "?"),
+  ("subdevice/eeprom.rs", "general", "read_exact", "?"),
+  ("subdevice/eeprom.rs", "identity", "read_exact", "?"),
+  ("subdevice/eeprom.rs", "fmmus", "read", "?"),
+  ("subdevice/eeprom.rs", "find_string", "read_byte", "?"),
+  ("subdevice/eeprom.rs", "find_string", "read_byte", "?"),
+  ("subdevice/eeprom.rs", "find_string", "read_byte", "?"),
+  ("subdevice/eeprom.rs", "find_string", "read_exact", "?"),
+  ("subdevice/eeprom.rs", "next", "read_exact", "other"),
+  ("subdevice/eeprom.rs", "next_sub_item", "read_exact", "other"),
+  ("subdevice/mod.rs", "eeprom_read_raw", "read", "ret"),
+  ("subdevice/mod.rs", "eeprom_read", "read_exact", "?"),
+  ("subdevice/mod.rs", "eeprom_write_dangerously", "write_all", "?")]
+
+/-- Generated obligation: the provider / range call sites found in /repo and what happens to their
+    results are exactly the reviewed ones. Turning a `.await?` of the chunk loop into anything else
+    (a `match` that breaks out with the bytes read so far, `.ok()`, `unwrap_or`) changes the
+    regenerated list and this stops checking. -/
+theorem eeprom_error_paths :
+    Gen.WkcEeprom.providerCalls = reviewedProviderCalls ∧ Gen.WkcEeprom.rangeCalls = reviewedRangeCalls ∧
+    (∀ c ∈ Gen.WkcEeprom.providerCalls, c.2.2.2 = "?") := by
+  decide
+
 /-- Generated obligation: of the builder methods that go through `common(..)`, exactly `receive`,
     `receive_slice`, `send_receive`, `send_receive_slice` pass the response through
     `maybe_wkc(self.wkc)`; `ReceivedPdu::wkc` compares for equality and reports both counts. -/
@@ -467,7 +513,342 @@ theorem checked_methods :
     Gen.Wkc.wkcCheckShape = true := by
   decide
 
+/-! ### Multi-datagram EEPROM accesses: the paths above the provider
+
+  `EepromRange::read` (one `clear_errors`, then one `read_chunk` per 4/8-byte chunk), `read_exact`,
+  `SubDeviceEeprom::fmmus`, `write_all`, and the public `SubDevice::{eeprom_read_raw, eeprom_read,
+  eeprom_write_dangerously, set_alias_address}` built on them. The datagrams the property requires to
+  be checked on these paths are: every SII status poll (FPRD 0x0502), every data read (FPRD 0x0508)
+  and the error-reset write-and-read-back of `clear_errors` (FPWR 0x0502 via `send_receive`). The
+  command writes go through `WrappedWrite::send` (documented exempt, `reviewedSend`). -/
+
+/-- Every datagram of a successful `clear_errors` came back with working counter 1. -/
+theorem eeprom_clear_serviced (c : List Ev) (h : ClearOk c) : ∀ e ∈ c, ∃ p, e = .resp p ∧ p.wkc = 1 := by
+  cases h with
+  | clean p hw _ => intro e he; simp at he; exact ⟨p, he, hw⟩
+  | reset p p2 hw _ hw2 _ =>
+    intro e he
+    simp at he
+    rcases he with rfl | rfl
+    · exact ⟨p, rfl, hw⟩
+    · exact ⟨p2, rfl, hw2⟩
+
+/-- `EepromRange::read`, for every window, buffer length, start parity, chunk size and trace: if it
+    returns `Ok` then (1) it returns as many bytes as were asked for and lie inside the window —
+    never fewer; (2) unless the window was empty (no datagram sent), the datagrams it consumed are
+    those of a `clear_errors` all of whose datagrams had working counter 1, followed by chunk reads
+    in EVERY one of which every status poll and the data read had working counter 1; (3) the bytes
+    are gathered from exactly the payloads of those data reads (`gather`: odd start drops a byte,
+    last chunk cut), so every byte returned was delivered by a data read that was serviced. -/
+theorem eeprom_range_read_checked (pos endp n : Nat) (tr rest : List Ev) (out : List Nat) (pos' : Nat)
+    (h : rangeRead pos endp n tr = (.ok (out, pos'), rest)) :
+    out.length = min n (endp - pos) ∧
+    ((endp - pos = 0 ∧ rest = tr) ∨
+     ∃ (clr : List Ev) (segs : List ChunkSeg), ClearOk clr ∧
+       tr = clr ++ (segs.flatMap ChunkSeg.events ++ rest) ∧ (∀ s ∈ segs, s.Checked) ∧
+       out = gather pos (min n (endp - pos)) (segs.map fun s => s.data.data) ∧
+       (∀ b ∈ out, ∃ s ∈ segs, s.data.wkc = 1 ∧ b ∈ s.data.data)) := by
+  refine ⟨rangeRead_ok_length _ _ _ _ _ _ _ h, ?_⟩
+  rcases rangeRead_ok _ _ _ _ _ _ _ h with ⟨h0, _, _, hr⟩ | ⟨_, clr, segs, hc, hshape, hchk, hout, _, _⟩
+  · exact Or.inl ⟨h0, hr⟩
+  · refine Or.inr ⟨clr, segs, hc, hshape, hchk, hout, ?_⟩
+    intro b hb
+    rw [hout] at hb
+    obtain ⟨d, hd, hbd⟩ := gather_subset _ _ _ _ hb
+    obtain ⟨s, hs, rfl⟩ := List.mem_map.1 hd
+    exact ⟨s, hs, (hchk s hs).2.2, hbd⟩
+
+/-- The window `start_at(word, n)` builds holds the `n` bytes unless it runs into the end of the
+    16-bit word address space. -/
+theorem eeprom_window (word n : Nat) :
+    min n ((startAt word n).2 - (startAt word n).1) = min n (131072 - word * 2) := by
+  simp only [startAt, EE_SPACE, Gen.Eeprom.ADDRESS_SPACE_BYTES]
+  omega
+
+/-- The public `SubDevice::eeprom_read_raw(word, buf)`: `Ok` only with the whole buffer (as far as
+    the address space reaches), every required datagram serviced. -/
+theorem eeprom_raw_read_checked (word n : Nat) (tr rest : List Ev) (out : List Nat)
+    (h : eeRaw word n 0 n tr = (.ok out, rest)) :
+    out.length = min n (131072 - word * 2) ∧
+    ((131072 - word * 2 = 0 ∧ rest = tr) ∨ n = 0 ∨
+     ∃ (clr : List Ev) (segs : List ChunkSeg), ClearOk clr ∧
+       tr = clr ++ (segs.flatMap ChunkSeg.events ++ rest) ∧ (∀ s ∈ segs, s.Checked) ∧
+       (∀ b ∈ out, ∃ s ∈ segs, s.data.wkc = 1 ∧ b ∈ s.data.data)) := by
+  simp only [eeRaw, if_true] at h
+  obtain ⟨pos', h'⟩ := bytesOnly_ok _ _ _ h
+  obtain ⟨hl, hrest⟩ := eeprom_range_read_checked _ _ _ _ _ _ _ h'
+  rw [eeprom_window] at hl
+  refine ⟨hl, ?_⟩
+  rcases hrest with ⟨h0, hr⟩ | ⟨clr, segs, hc, hshape, hchk, _, hb⟩
+  · simp only [startAt, EE_SPACE, Gen.Eeprom.ADDRESS_SPACE_BYTES] at h0
+    by_cases hn : n = 0
+    · exact Or.inr (Or.inl hn)
+    · exact Or.inl ⟨by omega, hr⟩
+  · exact Or.inr (Or.inr ⟨clr, segs, hc, hshape, hchk, hb⟩)
+
+/-- `read_exact`-based reads (`SubDevice::eeprom_read::<T>`, identity, alias, size, mailbox
+    configuration): `Ok` always carries exactly the `n` bytes of the type … -/
+theorem eeprom_typed_read_never_short (word n : Nat) (tr rest : List Ev) (out : List Nat)
+    (h : eeTyped word n tr = (.ok out, rest)) : out.length = n := by
+  have := readExactLoop_ok_length _ _ _ _ _ _ _ h
+  simpa using this
+
+/-- … and when the window does not hit the end of the address space it is ONE `read`, so
+    `eeprom_range_read_checked` applies to it: every required datagram was serviced. -/
+theorem eeprom_typed_read_checked (word n : Nat) (tr rest : List Ev) (out : List Nat) (hn : 0 < n)
+    (hwin : word * 2 + (n + 1) / 2 * 2 ≤ 131072) (h : eeTyped word n tr = (.ok out, rest)) :
+    out.length = n ∧
+    ∃ (clr : List Ev) (segs : List ChunkSeg), ClearOk clr ∧
+      tr = clr ++ (segs.flatMap ChunkSeg.events ++ rest) ∧ (∀ s ∈ segs, s.Checked) ∧
+      (∀ b ∈ out, ∃ s ∈ segs, s.data.wkc = 1 ∧ b ∈ s.data.data) := by
+  refine ⟨eeprom_typed_read_never_short _ _ _ _ _ h, ?_⟩
+  have hfit : n ≤ (startAt word n).2 - (startAt word n).1 := by
+    simp only [startAt, EE_SPACE, Gen.Eeprom.ADDRESS_SPACE_BYTES]; omega
+  simp only [eeTyped] at h
+  rw [readExact_single _ _ _ _ hn hfit] at h
+  obtain ⟨pos', h'⟩ := bytesOnly_ok _ _ _ h
+  rcases (eeprom_range_read_checked _ _ _ _ _ _ _ h').2 with ⟨h0, _⟩ | ⟨clr, segs, hc, hshape, hchk, _, hb⟩
+  · omega
+  · exact ⟨clr, segs, hc, hshape, hchk, hb⟩
+
+/-- Fault propagation through `read`, for EVERY number of chunks already copied and EVERY datagram
+    position of the failing chunk read: after a serviced `clear_errors` and any sequence of healthy
+    chunk reads that leaves the buffer unfilled (`advance … = some (_, want')`, `want' > 0`), a chunk
+    read that fails in any of the ways `ChunkFault` lists — a status poll at any position or the data
+    read coming back with working counter `r ≠ 1`, or a lost frame, or the EEPROM deadline — makes
+    `read` return exactly that error: `WorkingCounter { expected: 1, received: r }` (resp.
+    `Timeout(Pdu)` / `Timeout(Eeprom)`), never `Ok` with the bytes copied so far. The same for a
+    failing `clear_errors`. -/
+theorem eeprom_fault_propagates (pos endp n : Nat) (clr : List Ev) (segs : List ChunkSeg) (pos' want' : Nat)
+    (f : List Ev) (e : Err) (t : List Ev) (h0 : endp - pos ≠ 0) (hc : ClearOk clr) (hh : ∀ s ∈ segs, s.Healthy)
+    (hadv : advance pos (min n (endp - pos)) (segs.map fun s => s.data.data) = some (pos', want'))
+    (hw : 0 < want') (hp : pos' / 2 < 65536) (hf : ChunkFault f e) :
+    rangeRead pos endp n (clr ++ (segs.flatMap ChunkSeg.events ++ (f ++ t))) = (.error (.base e), t) ∧
+    ((∃ r, r ≠ 1 ∧ e = .workingCounter 1 r) ∨ e = .timeout .pdu ∨ e = .timeout .eeprom) := by
+  refine ⟨rangeRead_fault_chunk pos endp n clr segs pos' want' f e t h0 hc hh hadv hw hp hf, ?_⟩
+  cases hf with
+  | cmdLost => exact Or.inr (Or.inl rfl)
+  | poll _ _ p _ hw' => exact Or.inl ⟨p.wkc, hw', rfl⟩
+  | pollLost => exact Or.inr (Or.inl rfl)
+  | pollDeadline => exact Or.inr (Or.inr rfl)
+  | data _ _ _ p _ _ _ hw' => exact Or.inl ⟨p.wkc, hw', rfl⟩
+  | dataLost => exact Or.inr (Or.inl rfl)
+
+theorem eeprom_clear_fault_propagates (pos endp n : Nat) (f : List Ev) (e : Err) (t : List Ev)
+    (h0 : endp - pos ≠ 0) (hf : ClearFault f e) :
+    rangeRead pos endp n (f ++ t) = (.error (.base e), t) ∧
+    ((∃ r, r ≠ 1 ∧ e = .workingCounter 1 r) ∨ e = .timeout .pdu) := by
+  refine ⟨rangeRead_fault_clear pos endp n f e t h0 hf, ?_⟩
+  cases hf with
+  | status p hw => exact Or.inl ⟨p.wkc, hw, rfl⟩
+  | statusLost => exact Or.inr rfl
+  | reset _ p2 _ _ hw => exact Or.inl ⟨p2.wkc, hw, rfl⟩
+  | resetLost => exact Or.inr rfl
+
+/-- The same for the devices that exist and the public entry points: SII reads of `L = 4` or `8`
+    bytes, `k` healthy chunks that do not yet cover the `n` bytes asked for (ANY `k` with `L·k < n`),
+    then a chunk read that fails: `eeprom_read_raw` and `eeprom_read::<T>` both return the failing
+    datagram's error. (A device that drops out after the k-th chunk makes the next status poll come
+    back with counter 0: `ChunkFault.poll` with `busy = []`.) -/
+theorem eeprom_fault_after_k_chunks (word n L : Nat) (clr : List Ev) (segs : List ChunkSeg) (f : List Ev) (e : Err)
+    (t : List Ev) (hL : L = 4 ∨ L = 8) (hc : ClearOk clr) (hh : ∀ s ∈ segs, s.Healthy)
+    (hlen : ∀ s ∈ segs, s.data.data.length = L) (hmore : L * segs.length < n)
+    (hwin : word * 2 + (n + 1) / 2 * 2 ≤ 131072) (hf : ChunkFault f e) :
+    eeRaw word n 0 n (clr ++ (segs.flatMap ChunkSeg.events ++ (f ++ t))) = (.error (.base e), t) ∧
+    eeTyped word n (clr ++ (segs.flatMap ChunkSeg.events ++ (f ++ t))) = (.error (.base e), t) := by
+  have hL0 : 0 < L := by omega
+  have hL2 : L % 2 = 0 := by omega
+  have hwinv : (startAt word n).2 - (startAt word n).1 = (n + 1) / 2 * 2 := by
+    simp only [startAt, EE_SPACE, Gen.Eeprom.ADDRESS_SPACE_BYTES]; omega
+  have hpos : (startAt word n).1 = word * 2 := rfl
+  have hmin : min n ((startAt word n).2 - (startAt word n).1) = n := by rw [hwinv]; omega
+  have hadv := advance_uniform L hL0 hL2 (segs.map fun s => s.data.data) (word * 2) n (by omega)
+    (by intro d hd; obtain ⟨s, hs, rfl⟩ := List.mem_map.1 hd; exact hlen s hs)
+    (by rw [List.length_map]; omega) (by rw [List.length_map]; omega)
+  rw [List.length_map] at hadv
+  have hrr := rangeRead_fault_chunk (startAt word n).1 (startAt word n).2 n clr segs _ _ f e t
+    (by rw [hwinv]; omega) hc hh (by rw [hmin, hpos]; exact hadv) (by omega) (by omega) hf
+  constructor
+  · simp only [eeRaw, if_true, hrr, bytesOnly]
+  · simp only [eeTyped]
+    rw [readExact_single _ _ _ _ (by omega) (by rw [hwinv]; omega), hrr]
+    rfl
+
+/-- A device that answers everything gets its data through: the loop returns exactly what the data
+    reads delivered (the theorems above are not vacuous for any number of chunks). -/
+theorem eeprom_healthy_read_returns_all (pos endp n : Nat) (clr : List Ev) (segs : List ChunkSeg) (t : List Ev)
+    (h0 : endp - pos ≠ 0) (hc : ClearOk clr) (hh : ∀ s ∈ segs, s.Healthy)
+    (hf : fills pos (min n (endp - pos)) (segs.map fun s => s.data.data) = true) :
+    rangeRead pos endp n (clr ++ (segs.flatMap ChunkSeg.events ++ t))
+      = (.ok (gather pos (min n (endp - pos)) (segs.map fun s => s.data.data), pos + min n (endp - pos)), t) :=
+  rangeRead_healthy pos endp n clr segs t h0 hc hh hf
+
+/-- `SubDeviceEeprom::fmmus` (one `read` of the whole category): `Ok` means every chunk read of the
+    category search was serviced, and — if the category exists — the list has as many entries as
+    the category holds (up to the 16 of the buffer, never fewer) and is the decoding of the bytes of
+    a `read` to which `eeprom_range_read_checked` applies. -/
+theorem eeprom_fmmus_checked (tr rest : List Ev) (us : List Nat) (h : eeFmmus tr = (.ok us, rest)) :
+    ∃ walk : List ChunkSeg, (∀ s ∈ walk, s.Checked) ∧
+      ((us = [] ∧ tr = walk.flatMap ChunkSeg.events ++ rest) ∨
+       ∃ (pos endp : Nat) (t : List Ev) (bytes : List Nat) (pos' : Nat),
+         tr = walk.flatMap ChunkSeg.events ++ t ∧
+         rangeRead pos endp Gen.Eeprom.FMMU_READ_BUF t = (.ok (bytes, pos'), rest) ∧
+         parseFmmus bytes = some us ∧ us.length = min Gen.Eeprom.FMMU_READ_BUF (endp - pos)) := by
+  unfold eeFmmus at h
+  split at h
+  · simp at h
+  · rename_i t hwalk
+    obtain ⟨walk, hshape, hchk⟩ := categoryLoop_ok _ _ _ _ _ _ hwalk
+    simp only [Prod.mk.injEq, ERes.ok.injEq] at h
+    obtain ⟨rfl, rfl⟩ := h
+    exact ⟨walk, hchk, Or.inl ⟨rfl, hshape⟩⟩
+  · rename_i r t hwalk
+    obtain ⟨walk, hshape, hchk⟩ := categoryLoop_ok _ _ _ _ _ _ hwalk
+    split at h
+    · simp at h
+    · rename_i bytes pos' t2 hread
+      split at h
+      · rename_i us' hparse
+        simp only [Prod.mk.injEq, ERes.ok.injEq] at h
+        obtain ⟨rfl, rfl⟩ := h
+        refine ⟨walk, hchk, Or.inr ⟨r.1, r.2, t, bytes, pos', hshape, hread, hparse, ?_⟩⟩
+        rw [parseFmmus_length _ _ hparse, rangeRead_ok_length _ _ _ _ _ _ _ hread]
+      · simp at h
+
+/-- `fmmus` hands on any failure of the category search's chunk reads and of its `read`: with
+    `eeprom_fault_propagates`, a datagram of the category read that is not serviced makes the query
+    fail with the working-counter error instead of returning a truncated list. -/
+theorem eeprom_fmmus_fault_propagates (tr t t2 : List Ev) (r : Nat × Nat) (e : EErr) (e0 : Err) :
+    (categoryLoop Gen.Eeprom.CAT_FMMU Gen.Eeprom.SII_FIRST_CATEGORY_START 0 tr = (.ok (some r), t) →
+      rangeRead r.1 r.2 Gen.Eeprom.FMMU_READ_BUF t = (.error e, t2) → eeFmmus tr = (.error e, t2)) ∧
+    (readChunk tr = (.error e0, t) → eeFmmus tr = (.error (.base e0), t)) := by
+  constructor
+  · intro hwalk hread
+    unfold eeFmmus
+    rw [hwalk]
+    simp only [hread]
+  · intro hbad
+    unfold eeFmmus
+    rw [categoryLoop_first_chunk_fault _ _ _ _ _ _ hbad]
+
+/-- Multi-word writes (`eeprom_write_dangerously::<T>`, `write_all`): `Ok` means ALL `⌈n/2⌉` words
+    were written and each `write_word` ended on a status poll that came back with working counter 1
+    (for every `n > 0`). -/
+theorem eeprom_write_all_checked (word n : Nat) (tr rest : List Ev) (hn : 0 < n)
+    (hwin : word * 2 + (n + 1) / 2 * 2 ≤ 131072) (h : eeWrite word n tr = (.ok (), rest)) :
+    ∃ ws : List (List Ev × Pdu), tr = wordsEvents ws ++ rest ∧ (∀ w ∈ ws, w.2.wkc = 1) ∧
+      ws.length = (n + 1) / 2 := by
+  have hwinv : (startAt word n).2 - (startAt word n).1 = (n + 1) / 2 * 2 := by
+    simp only [startAt, EE_SPACE, Gen.Eeprom.ADDRESS_SPACE_BYTES]; omega
+  have hb : List.replicate n 0 ≠ [] := by
+    intro hnil
+    have := congrArg List.length hnil
+    simp at this; omega
+  obtain ⟨ws, h1, h2, h3⟩ := writeAllLoop_ok_fits _ _ _ _ _ hb (by rw [hwinv]; simp) h
+  exact ⟨ws, h1, h2, by simpa using h3⟩
+
+/-- The write stops at the first word whose `write_word` fails — after ANY number `k` of completed
+    words — with that error, e.g. `WorkingCounter { expected: 1, received: r }` of a status poll
+    (`write_word_poll_mismatch`). -/
+theorem eeprom_write_fault_propagates (word n : Nat) (ws : List (List Ev)) (tail t : List Ev) (e : Err)
+    (hok : ∀ w ∈ ws, ∀ x, writeWord (w ++ x) = (.ok (), x)) (hk : ws.length < (n + 1) / 2)
+    (hwin : word * 2 + (n + 1) / 2 * 2 ≤ 131072) (hbad : writeWord tail = (.error e, t)) :
+    eeWrite word n (ws.flatten ++ tail) = (.error (.base e), t) := by
+  have hwinv : (startAt word n).2 - (startAt word n).1 = (n + 1) / 2 * 2 := by
+    simp only [startAt, EE_SPACE, Gen.Eeprom.ADDRESS_SPACE_BYTES]; omega
+  have hend : (startAt word n).2 = word * 2 + (n + 1) / 2 * 2 := by
+    simp only [startAt, EE_SPACE, Gen.Eeprom.ADDRESS_SPACE_BYTES]; omega
+  have hpos : (startAt word n).1 = word * 2 := rfl
+  have hb : List.replicate n 0 ≠ [] := by
+    intro hnil
+    have := congrArg List.length hnil
+    simp at this; omega
+  unfold eeWrite
+  apply writeAllLoop_first_write_error _ _ _ _ _ _ hb
+  unfold rangeWrite
+  rw [if_neg (by rw [hwinv]; omega)]
+  exact writeLoopR_stops_at_failing_word ws _ _ _ 0 tail t e hok (by simpa using hk)
+    (by rw [hpos, hend]; omega) (by rw [hpos]; omega) hbad
+
+/-- A `write_word` whose first status poll, or whose completion poll after the two (exempt) writes,
+    is not serviced fails with the working-counter error. -/
+theorem write_word_poll_mismatch (p idle d c : Pdu) (t : List Ev) (hw : p.wkc ≠ 1)
+    (hiw : idle.wkc = 1) (hib : SaysBusy false idle) :
+    writeWord (.resp p :: t) = (.error (.workingCounter 1 p.wkc), t) ∧
+    writeWord (.resp idle :: .resp d :: .resp c :: .resp p :: t) = (.error (.workingCounter 1 p.wkc), t) := by
+  obtain ⟨st, hst, hb⟩ := hib
+  constructor
+  · unfold writeWord
+    rw [waitWhileBusy_mismatch _ _ hw]
+  · unfold writeWord
+    rw [waitWhileBusy_idle _ _ st hiw hst hb]
+    simp only
+    rw [writeLoop]
+    simp only [send_resp]
+    split
+    · rename_i er t1 heq
+      rw [waitWhileBusy_mismatch _ _ hw] at heq
+      simp only [Prod.mk.injEq, Res.error.injEq] at heq
+      obtain ⟨rfl, rfl⟩ := heq
+      rfl
+    · rename_i st' t1 heq
+      rw [waitWhileBusy_mismatch _ _ hw] at heq
+      simp at heq
+
 /-! ### Non-vacuity -/
+
+/-- One chunk read of a healthy device with 4-byte SII reads: command answered, idle at the first
+    poll, data `d` — every datagram with working counter 1. -/
+def seg4 (d : List Nat) : ChunkSeg := ⟨⟨[0, 1, 0, 0, 0, 0], 1⟩, [], ⟨[0, 0], 1⟩, ⟨d, 1⟩⟩
+
+theorem seg4_healthy (d : List Nat) : (seg4 d).Healthy :=
+  ⟨⟨by simp [seg4], rfl, rfl⟩, by simp [seg4],
+    ⟨⟨false, false, false, false, false, false⟩, (by decide : unpackSii [0, 0] = .ok ⟨false, false, false, false, false, false⟩), rfl⟩⟩
+
+theorem clear_clean : ClearOk [.resp ⟨[0, 0], 1⟩] :=
+  .clean _ rfl ⟨⟨false, false, false, false, false, false⟩, by decide, rfl⟩
+
+/-- A healthy 12-byte `eeprom_read_raw` at word 5 (status read of `clear_errors`, then three chunk
+    reads of 4 bytes): all 12 bytes, in order. -/
+example : eeRaw 5 12 0 12 (.resp ⟨[0, 0], 1⟩ ::
+      ((seg4 [1, 2, 3, 4]).events ++ ((seg4 [5, 6, 7, 8]).events ++ (seg4 [9, 10, 11, 12]).events)))
+    = (.ok [1, 2, 3, 4, 5, 6, 7, 8, 9, 10, 11, 12], []) := by
+  have h := eeprom_healthy_read_returns_all 10 22 12 [.resp ⟨[0, 0], 1⟩]
+    [seg4 [1, 2, 3, 4], seg4 [5, 6, 7, 8], seg4 [9, 10, 11, 12]] [] (by decide) clear_clean
+    (by intro s hs; simp at hs; rcases hs with rfl | rfl | rfl <;> exact seg4_healthy _) (by decide)
+  have hg : gather 10 (min 12 (22 - 10)) ([seg4 [1, 2, 3, 4], seg4 [5, 6, 7, 8], seg4 [9, 10, 11, 12]].map fun s => s.data.data)
+      = [1, 2, 3, 4, 5, 6, 7, 8, 9, 10, 11, 12] := by decide
+  rw [hg] at h
+  have hs : startAt 5 12 = (10, 22) := by decide
+  simp only [eeRaw, if_true, hs]
+  simp only [List.flatMap_cons, List.flatMap_nil, List.append_nil, List.cons_append, List.nil_append] at h
+  rw [h]
+  rfl
+
+/-- The device drops out right after the first chunk of that read (the next command write and status
+    poll come back untouched, counter 0): `WorkingCounter { expected: 1, received: 0 }`, not `Ok(4)`. -/
+example : eeRaw 5 12 0 12 (.resp ⟨[0, 0], 1⟩ ::
+      ((seg4 [1, 2, 3, 4]).events ++ [.resp ⟨[0, 1, 0, 0, 0, 0], 0⟩, .resp ⟨[0, 0], 0⟩]))
+    = (.error (.base (.workingCounter 1 0)), []) := by
+  have h := (eeprom_fault_after_k_chunks 5 12 4 [.resp ⟨[0, 0], 1⟩] [seg4 [1, 2, 3, 4]]
+    [.resp ⟨[0, 1, 0, 0, 0, 0], 0⟩, .resp ⟨[0, 0], 0⟩] (.workingCounter 1 0) [] (Or.inl rfl) clear_clean
+    (by intro s hs; simp at hs; subst hs; exact seg4_healthy _) (by intro s hs; simp at hs; subst hs; rfl)
+    (by decide) (by decide) (ChunkFault.poll ⟨[0, 1, 0, 0, 0, 0], 0⟩ [] ⟨[0, 0], 0⟩ (by simp) (by decide))).1
+  simpa using h
+
+/-- The same drop-out under an `fmmus()` query whose category (6 entries at word 0x42) was found by a
+    healthy search: the query fails with the working-counter error, no truncated list. -/
+example (walk t : List Ev)
+    (hwalk : categoryLoop Gen.Eeprom.CAT_FMMU Gen.Eeprom.SII_FIRST_CATEGORY_START 0 (walk ++ t) = (.ok (some (132, 138)), t))
+    (ht : t = .resp ⟨[0, 0], 1⟩ :: ((seg4 [1, 2, 3, 1]).events ++ [.resp ⟨[0, 1, 0, 0, 0, 0], 0⟩, .resp ⟨[0, 0], 0⟩])) :
+    eeFmmus (walk ++ t) = (.error (.base (.workingCounter 1 0)), []) := by
+  refine (eeprom_fmmus_fault_propagates (walk ++ t) t [] (132, 138) _ (.timeout .pdu)).1 hwalk ?_
+  have h := (eeprom_fault_propagates 132 138 16 [.resp ⟨[0, 0], 1⟩] [seg4 [1, 2, 3, 1]] 136 2
+    [.resp ⟨[0, 1, 0, 0, 0, 0], 0⟩, .resp ⟨[0, 0], 0⟩] (.workingCounter 1 0) [] (by decide) clear_clean
+    (by intro s hs; simp at hs; subst hs; exact seg4_healthy _) (by decide) (by decide) (by decide)
+    (ChunkFault.poll ⟨[0, 1, 0, 0, 0, 0], 0⟩ [] ⟨[0, 0], 0⟩ (by simp) (by decide))).1
+  rw [ht]
+  simpa [Gen.Eeprom.FMMU_READ_BUF] using h
 
 /-- A healthy EEPROM read: command write, one busy poll, one idle poll, 4 data bytes. -/
 example : readChunk [.resp ⟨[0, 1, 0x40, 0, 0, 0], 1⟩, .resp ⟨[0, 0x80], 1⟩, .resp ⟨[0, 0], 1⟩,
